@@ -12,12 +12,13 @@ RULE = ('read cases = (file, residue r of bytes already delivered mod 1012, chun
         'with the reference payload stream (first 1012 bytes of each 1014-byte chunk). Fault cases = every truncation '
         'length of 1..4-block files and every wrong value of every trailer byte fed to unblock_1014. Enumerated cases '
         'are distinct by construction. Non-trivial: the file has at least one payload byte.')
-ASSUMPTIONS = ['vmon/ref/blocking.py payload-stream model', 'io.BytesIO',
-               'read sizes 0 and negative are outside the statement (not judged); read(None) judged only if it returns']
+ASSUMPTIONS = ['vmon/ref/blocking.py payload-stream model', 'io.BytesIO (never returns short reads)',
+               'a read of size 0 must return nothing and leave later reads correct; negative sizes are outside the statement; '
+               'read(None) judged only if it returns']
 MAXN = 2024
 QUICK_RESIDUES = [0, 1, 2, 3, 504, 505, 506, 507, 508, 1008, 1009, 1010, 1011]
 
-_DATA = coded(6 * 1012)
+_DATA = coded(210 * 1012)
 
 
 def files():
@@ -27,6 +28,8 @@ def files():
         'F3': ref.block(_DATA[:3 * 1012 - 5]),
         'F5s': ref.block(_DATA[:5 * 1012]) + _DATA[5 * 1012:5 * 1012 + 500],
         'F2x': ref.block(_DATA[:2 * 1012]),
+        'F70': ref.block(_DATA[:70 * 1012 - 300]),          # larger than 64 KiB
+        'F200': ref.block(_DATA[:200 * 1012 - 11]),
     }
 
 
@@ -65,22 +68,31 @@ def cases(ctx):
         for c in range(3):
             if ctx.mine(i):
                 yield {'kind': 'reads', 'file': names[c] if r % 4 else ['F1', 'F2x', 'F3'][c], 'r': r, 'c': c,
-                       'pre': chunking_for(ctx, r, c), 'sizes': [1, MAXN]}
+                       'pre': chunking_for(ctx, r, c), 'sizes': [0, MAXN]}
             i += 1
     if ctx.shard == 0:
-        ctx.exhaustive_subspace('residues x 3 chunkings x next read size 1..2024', len(residues) * 3 * MAXN)
+        ctx.exhaustive_subspace('residues x 3 chunkings x next read size 0..2024', len(residues) * 3 * (MAXN + 1))
     # read() with no size at every residue
     for r in residues:
         if ctx.mine(i):
             yield {'kind': 'readall', 'file': 'F3' if r % 2 else 'F5s', 'pre': [r] if r else []}
         i += 1
-    # seeded long sequences
+    # seeded long sequences (size 0 and sizes far above two blocks included), small and large files
     rng = ctx.rng('seq')
-    for j in range((300 if ctx.tier == 'quick' else 5000) // ctx.nshards + 1):
+    for j in range((400 if ctx.tier == 'quick' else 6000) // ctx.nshards + 1):
         name = rng.choice(list(_FILES))
-        sizes = [rng.choice([1, 2, 3, 4, 7, 100, 1011, 1012, 1013, 1014, 2024, 2025, 3000, rng.randint(1, 1300)])
-                 for _ in range(rng.randint(1, 14))]
+        big = name in ('F70', 'F200')
+        pool = [0, 1, 2, 3, 4, 7, 100, 1011, 1012, 1013, 1014, 2024, 2025, 3000, rng.randint(1, 1300)]
+        if big:
+            pool += [4096, 8192, 16384, 65535, 65536, 65537, 66000, 70000, 131072, rng.randint(2025, 90000)]
+        sizes = [rng.choice(pool) for _ in range(rng.randint(1, 14))]
         yield {'kind': 'seq', 'file': name, 'sizes': sizes}
+    # read() with no size on files larger than 64 KiB, after a few different pre-reads
+    for name in ('F70', 'F200'):
+        for pre in ([], [1], [1012], [4, 2021], [65536], [66000, 7], [0, 5], [5, 0]):
+            if ctx.mine(i):
+                yield {'kind': 'readall', 'file': name, 'pre': pre}
+            i += 1
     # unblock_1014 fault enumeration
     for k in (1, 2, 3, 4):
         if ctx.mine(i):
@@ -133,6 +145,10 @@ def run_reads(ctx, case, name, sizes, tail=True):
             unexpected(ctx, case, kind, got, 'read')
             return False
         want = P[pos:pos + n]
+        if n == 0:
+            ctx.count('reads of size 0 judged')
+        elif n > 2024:
+            ctx.count('reads larger than two blocks judged')
         if got != want:
             fail(ctx, case, 'read:wrong_slice', {'read_index': idx, 'size': n, 'pos': pos, 'got_len': len(got),
                                                 'want_len': len(want), 'got_head': got[:16].hex(), 'want_head': want[:16].hex()})
@@ -184,7 +200,7 @@ def judge(ctx, case):
     if kind == 'readall':
         name = case['file']
         P = _PAYLOAD[name]
-        pos = sum(case['pre'])
+        pos = min(sum(case['pre']), len(P))
         for variant in ('noarg', 'none'):
             u = m.Unblock1014(io.BytesIO(_FILES[name]))
             ok = True
@@ -336,6 +352,10 @@ def canaries(ctx):
 def require(m):
     reasons = []
     c = m['counters']
+    if not c.get('reads of size 0 judged'):
+        reasons.append('no read of size 0 judged')
+    if not c.get('reads larger than two blocks judged'):
+        reasons.append('no read larger than two blocks judged')
     if not c.get('read() with no size judged'):
         reasons.append('read() with no size never judged')
     if not c.get('unblock_1014 accepted well-formed input'):
